@@ -323,7 +323,19 @@ Section Parser.
     end.
 
   (* babel.get_language_token *)
+  Definition babel_main (opts : list kv_opt) : option str :=
+    match find (fun o => str_eqb (fst o) (s2l "main")
+                         && match snd o with
+                            | Some v => match assoc v (t_babel_map T) with
+                                        | Some _ => true | None => false end
+                            | None => false end) (rev opts) with
+    | Some (_, Some v) => assoc v (t_babel_map T)
+    | _ => None
+    end.
   Definition babel_inject (opts : list kv_opt) : list tok :=
+    match babel_main opts with
+    | Some l => [LangT 0 l false true true]
+    | None =>
     match find (fun o => match snd o with
                          | None => match assoc (fst o) (t_babel_map T) with
                                    | Some _ => true | None => false end
@@ -333,7 +345,7 @@ Section Parser.
                 | None => []
                 end
     | None => []
-    end.
+    end end.
 
   Definition install_module (st : pstate) (m : module) (options : list kv_opt)
     : Res (list tok) :=
